@@ -18,7 +18,7 @@ CONSTANTS Chains
 
 Trace == ndJsonDeserialize(IOEnv.TRACE_FILE)
 
-VARIABLES l, h, seq, cseq, commits, receipts, acks, out, bind, ubal, wbal, rbal, held, status, clients, marks, snaps, sent, last
+VARIABLES l, h, seq, cseq, commits, receipts, acks, out, bind, ubal, wbal, rbal, held, status, clients, marks, snaps, rot, badrel, sent, last
 
 MaxSeq == 1000
 MaxH == 1000
@@ -33,6 +33,7 @@ Signers == {}
 Funds == 1000
 Fees == {}
 SendFrom == {}
+WithRotate == TRUE
 INSTANCE XIBC
 
 tvars == <<l, vars>>
@@ -78,6 +79,8 @@ Bind(k) ==
   /\ status'   = [c \in Chains |-> B_status(k, c)]
   /\ clients'  = [c \in Chains |-> B_clients(k, c)]
   /\ marks'    = [c \in Chains |-> St(k, c).marks]
+  /\ rot'      = [c \in Chains |-> [d \in Chains \ {c} |-> St(k, c).rot[d]]]      \* read from the real registry
+  /\ badrel'   = [c \in Chains |-> { Tr(x) : x \in SetOf(St(k, c).badrel) }]     \* read from the acknowledgements really written
   /\ snaps'    = IF Trace[k].ev = "Reset"
                    THEN [c \in Chains |-> << [commits |-> B_commits(k, c, S), acks |-> B_acks(k, c)] >>]
                  ELSE IF Trace[k].ev = "Commit"
@@ -89,7 +92,7 @@ TInit ==
   /\ l = 0
   /\ h = [c \in Chains |-> 0] /\ seq = [c \in Chains |-> <<>>] /\ cseq = seq /\ commits = [c \in Chains |-> {}]
   /\ receipts = commits /\ acks = commits /\ out = seq /\ bind = seq /\ ubal = h /\ wbal = seq /\ rbal = h /\ held = h
-  /\ status = seq /\ clients = seq /\ marks = h /\ snaps = seq /\ sent = {} /\ last = [act |-> "None", res |-> "ok"]
+  /\ status = seq /\ clients = seq /\ marks = h /\ snaps = seq /\ rot = seq /\ badrel = commits /\ sent = {} /\ last = [act |-> "None", res |-> "ok"]
 
 Step(k) == Trace[k].ev # "Reset"
 
@@ -100,7 +103,7 @@ ln(k) == Trace[k]
 ActChain(k) == ln(k).chain
 TripleOf(k) == Tr(ln(k).t)
 Unchanged(k) == /\ ln(k).dg.pre = ln(k).dg.post
-                /\ UNCHANGED <<h, seq, cseq, commits, receipts, acks, out, bind, ubal, wbal, rbal, held, status, clients, marks>>
+                /\ UNCHANGED <<h, seq, cseq, commits, receipts, acks, out, bind, ubal, wbal, rbal, held, status, clients, marks, rot, badrel>>
 
 (* C01 *)
 C01_RecvOnce(k) == (ln(k).ev = "Recv" /\ ln(k).res = "ok") =>
@@ -169,7 +172,12 @@ C05_AckOfThatPacket(k) == (ln(k).ev = "Ack" /\ ln(k).res = "ok") => ln(k).truth.
 C05_StatusOnce(k) == \A c \in Chains : \A t \in DOMAIN status[c] : status[c][t] # 0 => (t \in DOMAIN status'[c] /\ status'[c][t] = status[c][t])
 C05_RejectNoChange(k) == (ln(k).ev = "Ack" /\ ln(k).res # "ok") => Unchanged(k)
 
+(* an accepted acknowledgement does everything: commitment removed, outcome recorded, fee paid to the relayer it names *)
+(* (whom this chain's registry must know), callback run - or nothing at all                                              *)
+C05_AckAllOrNothing(k) == (ln(k).ev = "Ack" /\ ln(k).res = "ok") =>
+   LET c == ActChain(k)  t == TripleOf(k) IN (t \in badrel[t[2]]) = rot[c][t[2]]
 (* C06 *)
+C06_RegistryOnlyByProposal(k) == \A c \in Chains : rot'[c] # rot[c] => (ln(k).ev = "Rotate" /\ ActChain(k) = c)
 C06_OnlyRelayers(k) == (ln(k).ev \in {"UpdateClient", "Recv"} /\ ln(k).res = "ok") => ln(k).registered
 C06_AckRelayerField(k) == (ln(k).ev = "Recv" /\ ln(k).res = "ok") => ln(k).wrote.relayer_ok
 C06_RejectNoChange(k) == (ln(k).ev \in {"UpdateClient", "Recv"} /\ ln(k).res # "ok") => Unchanged(k)
@@ -209,6 +217,8 @@ Judge(k) ==
      /\ Report(k, "C05.CommitRemovedOnlyByAck", C05_CommitRemovedOnlyByAck(k))
      /\ Report(k, "C05.AckOnce", C05_AckOnce(k))
      /\ Report(k, "C05.AckOfThatPacket", C05_AckOfThatPacket(k))
+     /\ Report(k, "C05.AckAllOrNothing", C05_AckAllOrNothing(k))
+     /\ Report(k, "C06.RegistryOnlyByProposal", C06_RegistryOnlyByProposal(k))
      /\ Report(k, "C05.StatusOnce", C05_StatusOnce(k))
      /\ Report(k, "C05.RejectNoChange", C05_RejectNoChange(k))
      /\ Report(k, "C06.OnlyRelayers", C06_OnlyRelayers(k))
@@ -230,6 +240,7 @@ C_Step(k) ==
           /\ UpdateEff(c, a.counter, a.height, a.signer)
           /\ ln(k).res = Res(UpdateOK(c, a.counter, a.height, a.signer))
     [] ln(k).ev = "Retoggle" -> RetoggleEff(c, a.counter) /\ ln(k).res = "ok"
+    [] ln(k).ev = "Rotate" -> RotateEff(c, a.counter) /\ ln(k).res = "ok"
     [] ln(k).ev = "Recv" ->
           /\ RecvEff(c, Base(k), a.alt, a.ph, (IF a.proof = "ok" THEN "ok" ELSE "bad"), a.signer)
           /\ ln(k).res = Res(RecvAccept(c, Decoded(Base(k), a.alt), a.ph, (IF a.proof = "ok" THEN "ok" ELSE "bad"), a.signer))
